@@ -79,6 +79,8 @@ pub enum Op {
     /// `later` into the (1 + later_at)-th
     Reorg { depth: u8, extra: u8, first: Vec<TxRef>, later_at: u8, later: Vec<TxRef> },
     Poll,
+    /// a poll during which the n-th block download fails (persistent or transient error)
+    PollFail { nth: u8, persistent: bool },
     /// make the node refuse (code) or stop refusing (None) a transaction on policy grounds
     SetPolicy { tx: TxRef, code: Option<i32> },
     Restart,
@@ -102,6 +104,16 @@ pub enum Profile {
     Expiry,
     Lifecycle,
     Receipts,
+    Crash,
+}
+
+fn txref_p(p: Profile, chans: u8) -> BoxedStrategy<TxRef> {
+    if p == Profile::Crash {
+        // no third-party penalties / conflicting spends: who wins such a race depends on when the tower responds,
+        // and a crash legitimately delays that
+        return prop_oneof![4 => (0..chans).prop_map(|c| TxRef::Dispute(c, 0)), 1 => (0u8..4).prop_map(TxRef::Noise)].boxed();
+    }
+    txref(chans)
 }
 
 fn txref(chans: u8) -> BoxedStrategy<TxRef> {
@@ -162,24 +174,27 @@ fn take() -> BoxedStrategy<Take> {
 fn op(p: Profile, users: u8, chans: u8) -> BoxedStrategy<Op> {
     let user = || prop_oneof![8 => 0..users, 1 => Just(INTRUDER)];
     let register = (0..users).prop_map(|u| Op::Register { u });
-    let add = (user(), 0..chans, prop_oneof![6 => Just(0u8), 1 => Just(1u8)], blob(p), prop_oneof![Just(42u32), any::<u32>()], sig(p, users))
+    let dvar = if p == Profile::Crash { Just(0u8).boxed() } else { prop_oneof![6 => Just(0u8), 1 => Just(1u8)].boxed() };
+    let add = (user(), 0..chans, dvar, blob(p), prop_oneof![Just(42u32), any::<u32>()], sig(p, users))
         .prop_map(|(u, chan, dvar, blob, delay, sig)| Op::Add { u, chan, dvar, blob, delay, sig });
     let get = (user(), 0..chans, prop_oneof![6 => Just(0u8), 1 => Just(1u8)], sig(p, users)).prop_map(|(u, chan, dvar, sig)| Op::Get { u, chan, dvar, sig });
     let subinfo = (user(), sig(p, users)).prop_map(|(u, sig)| Op::SubInfo { u, sig });
-    let broadcast = txref(chans).prop_map(Op::Broadcast);
-    let mine = (take(), proptest::collection::vec(txref(chans), 0..4)).prop_map(|(take, extra)| Op::Mine { take, extra });
+    let broadcast = txref_p(p, chans).prop_map(Op::Broadcast);
+    // (crash profile: miners take everything, so a response delayed by a crash confirms at most a few blocks later)
+    let take = move || if p == Profile::Crash { Just(Take::All).boxed() } else { take() };
+    let mine = (take(), proptest::collection::vec(txref_p(p, chans), 0..4)).prop_map(|(take, extra)| Op::Mine { take, extra });
     let mine_many = |max: u8| (1u8..=max, take()).prop_map(|(n, take)| Op::MineMany { n, take });
     let reorg = |maxd: u8| {
         (
             prop_oneof![6 => 1u8..=3, 3 => 1u8..=maxd],
             1u8..=3,
-            proptest::collection::vec(txref(chans), 0..3),
+            proptest::collection::vec(txref_p(p, chans), 0..3),
             0u8..4,
-            proptest::collection::vec(txref(chans), 0..3),
+            proptest::collection::vec(txref_p(p, chans), 0..3),
         )
             .prop_map(|(depth, extra, first, later_at, later)| Op::Reorg { depth, extra, first, later_at, later })
     };
-    let policy = (txref(chans), prop_oneof![3 => Just(Some(-26)), 1 => Just(Some(-25)), 1 => Just(Some(-1)), 2 => Just(None)])
+    let policy = (txref_p(p, chans), prop_oneof![3 => Just(Some(-26)), 1 => Just(Some(-25)), 1 => Just(Some(-1)), 2 => Just(None)])
         .prop_map(|(tx, code)| Op::SetPolicy { tx, code });
     match p {
         Profile::Breach | Profile::Lifecycle | Profile::Receipts => prop_oneof![
@@ -194,6 +209,20 @@ fn op(p: Profile, users: u8, chans: u8) -> BoxedStrategy<Op> {
             10 => Just(Op::Poll),
             2 => policy,
             1 => Just(Op::Restart),
+        ]
+        .boxed(),
+        Profile::Crash => prop_oneof![
+            2 => register,
+            12 => add,
+            3 => broadcast,
+            8 => mine,
+            2 => mine_many(8),
+            1 => mine_many(110),
+            3 => reorg(6),
+            10 => Just(Op::Poll),
+            2 => (1u8..5, any::<bool>()).prop_map(|(nth, persistent)| Op::PollFail { nth, persistent }),
+            1 => policy,
+            3 => Just(Op::Restart),
         ]
         .boxed(),
         Profile::Chain => prop_oneof![
@@ -266,6 +295,8 @@ fn cfg(p: Profile) -> BoxedStrategy<TowerCfg> {
             .prop_map(|(slots, duration, grace)| TowerCfg { slots, duration, grace })
             .boxed(),
         Profile::Chain => Just(TowerCfg { slots: 10, duration: 5000, grace: 6 }).boxed(),
+        // ample slots: a crash may cost the in-flight request's slots, which must not decide later requests
+        Profile::Crash => prop_oneof![4 => Just(TowerCfg { slots: 100, duration: 5000, grace: 6 }), 1 => Just(TowerCfg { slots: 100, duration: 12, grace: 2 })].boxed(),
         _ => prop_oneof![
             4 => Just(TowerCfg { slots: 10, duration: 1000, grace: 6 }),
             1 => (1u32..6, 3u32..30, 0u32..4).prop_map(|(slots, duration, grace)| TowerCfg { slots, duration, grace }),
@@ -278,6 +309,7 @@ pub fn history(p: Profile, max_ops: usize) -> BoxedStrategy<History> {
     let (umax, cmax) = match p {
         Profile::Chain => (2u8, 3u8),
         Profile::Expiry => (3, 3),
+        Profile::Crash => (2, 3),
         _ => (MAX_USERS as u8, 5u8),
     };
     (cfg(p), 1..=umax, 1..=cmax, proptest::bool::weighted(0.15))
